@@ -212,15 +212,21 @@ impl StringLiteral<&'_ str> {
 fn unescape_string_literal(mut s: &str) -> String {
     let mut string = String::new();
     while let Some(i) = s.bytes().position(|b| b == b'\\') {
-        let c = match s.as_bytes()[i + 1] {
-            b'\'' => '\'',
-            b'"' => '"',
-            b'\\' => '\\',
-            b'/' => '/',
-            b'n' => '\n',
-            b'r' => '\r',
-            b't' => '\t',
-            _ => panic!("Invalid escape"),
+        let c = match s.as_bytes().get(i + 1) {
+            Some(b'\'') => '\'',
+            Some(b'"') => '"',
+            Some(b'\\') => '\\',
+            Some(b'/') => '/',
+            Some(b'n') => '\n',
+            Some(b'r') => '\r',
+            Some(b't') => '\t',
+            // The tokenizer has already reported the invalid escape code as an error, leave the
+            // text as it is written
+            _ => {
+                string.push_str(&s[..i + 1]);
+                s = &s[i + 1..];
+                continue;
+            }
         };
         string.push_str(&s[..i]);
         string.push(c);
@@ -634,10 +640,22 @@ impl<'input> Tokenizer<'input> {
             Some((_, ch)) => ch,
             None => return self.eof_recover(Token::CharLiteral('\0')),
         };
+        // A non-ascii character is written with more than one byte: decode it while the rest of its
+        // bytes are next in the input and then skip them
+        let decoded = if ch >= 0x80 {
+            let decoded = self.chars.chars.as_str_suffix().restore_char(&[ch]);
+            for _ in 1..decoded.len_utf8() {
+                self.bump();
+            }
+            Some(decoded)
+        } else {
+            None
+        };
 
         match self.bump() {
             Some((_, b'\'')) => {
-                let ch = self.chars.chars.as_str_suffix().restore_char(&[ch]);
+                let ch = decoded
+                    .unwrap_or_else(|| self.chars.chars.as_str_suffix().restore_char(&[ch]));
                 Ok(pos::spanned2(
                     start,
                     self.next_loc(),
